@@ -140,6 +140,15 @@ def all_frames():
     fr.append(('LogLogit', 'util-unavailable', 'real', lambda h: N(['LogLogit', [1, 2], [1, 2]], [ONE, HALF, h, ONE, ZERO])))
     fr.append(('LogLogit', 'avail', 'bool01', lambda h: N(['LogLogit', [1, 2], [1, 2]], [ONE, HALF, ZERO, ONE, h])))
     fr.append(('Catalog', 'selected', 'real', lambda h: N(['Catalog', 'catfr', 0], [h, HALF])))
+    # chained comparisons: a comparison one of whose operands is itself a comparison (the indicator (P > 0.5) == 1, ...): the
+    # hole below the inner comparison, or beside a comparison operand
+    cmp_inner = lambda h: N(['Bin', 'Gt'], [h, HALF])   # noqa: E731
+    cmp_side = N(['Bin', 'Gt'], [HALF, ZERO])
+    for op in ['Eq', 'Ne', 'Le', 'Ge', 'Lt', 'Gt']:
+        fr.append((op, '0-under-chained', 'real', lambda h, op=op: N(['Bin', op], [cmp_inner(h), ONE])))
+        fr.append((op, '1-under-chained', 'real', lambda h, op=op: N(['Bin', op], [ONE, cmp_inner(h)])))
+        fr.append((op, '0-beside-comparison', 'real', lambda h, op=op: N(['Bin', op], [h, cmp_side])))
+        fr.append((op, '1-beside-comparison', 'real', lambda h, op=op: N(['Bin', op], [cmp_side, h])))
     return fr
 
 
@@ -497,7 +506,7 @@ def gen_across_cases(rng, rounds):
 
 SLOT_VALUE = {'real': 0.5, 'pos': 1.5, 'nz': 1.5, 'key': 1.0, 'bool01': 1.0, 'var': 0.5}
 SETUPS = ['prepare-gvc', 'prepare-gvd', 'create_function', 'create_function_g', 'objective-f', 'objective-fg', 'objective-fgh',
-          'fresh-gvc', 'fresh-gvd', 'fresh-biogeme']
+          'fresh-gvc', 'fresh-gvd', 'fresh-biogeme', 'from-configuration']
 
 
 def simulate_script(c, tree, rows, script):
@@ -565,8 +574,16 @@ def gen_evalhist(rng, c, idx):
                    ('edited-then-restored', [['set', 'kbad', j, 77.0], 'call', ['set', 'kbad', j, good[j]], 'call'], [False, True]),
                    ('valid-then-scaled', ['call', ['scale', 'kbad', 77.0], 'call'], [True, False], 'Chosen alternative')]
         mention = '77'
-    elif kind in ('missing-column', 'logit-keys', 'logit-choice'):
+    elif kind in ('missing-column', 'logit-keys', 'logit-choice', 'draws-outside', 'rv-outside', 'var-outside-trajectory'):
         mode = 'catalog'
+        if kind in ('draws-outside', 'rv-outside', 'var-outside-trajectory'):
+            # placement rules under successive configurations of ONE expression object: entry points that prepare their
+            # own identifiers (the panel rule is judged on BIOGEME only)
+            fresh = ['fresh-biogeme', 'from-configuration'] if kind == 'var-outside-trajectory' else \
+                ['fresh-biogeme', 'from-configuration', 'fresh-gvc', 'fresh-gvd']
+            setup = fresh[idx % len(fresh)]
+            if has_heads(c['fault'], {'Derive', 'Integrate'}) and setup == 'fresh-gvd':
+                setup = 'fresh-gvc'
         # (a catalog at the very TOP of a formula cannot be evaluated with stored identifiers at all in this code base:
         #  MultipleExpression.set_id_manager never records the manager on the catalog itself -- reported, not judged)
         if idx % 4 < 2:
@@ -583,6 +600,8 @@ def gen_evalhist(rng, c, idx):
         mention = c['mention']
     if mode is None:
         return None
+    if mode == 'data' and setup == 'from-configuration':
+        setup = 'fresh-biogeme'            # no catalog in the formula
     sc = scripts[(idx // 2) % len(scripts)]
     name, script, expect = sc[:3]
     if len(sc) > 3:
@@ -591,7 +610,8 @@ def gen_evalhist(rng, c, idx):
     tree = N(['Bin', 'Plus'], [tree, N(['Bin', 'Times'], [ZERO, N(['Beta', 'bfr', False])])]) if tree['h'][0] != 'Catalog' else \
         N(['Catalog', tree['h'][1], 0], [N(['Bin', 'Plus'], [m, N(['Bin', 'Times'], [ZERO, N(['Beta', 'bfr', False])])]) for m in tree['k']])
     return {'kind': kind, 'frame': c['frame'], 'chain': c['chain'], 'setup': setup, 'history': name, 'script': script,
-            'expect': expect, 'tree': tree, 'betas': c['betas'], 'rows': rows, 'mention': mention, 'mode': mode}
+            'expect': expect, 'tree': tree, 'betas': c['betas'], 'rows': rows, 'mention': mention, 'mode': mode,
+            'panel': c['panel']}
 
 
 def stream_faults(ctx):
@@ -616,6 +636,11 @@ def stream_faults(ctx):
                 kinds = [k for k in kinds if k != 'var-outside-trajectory']
             # round robin: after len(kinds) <= 8 rounds every (frame, fault kind) pair has been planted
             k = kinds[(rnd + 3 * FRAMES.index(target) + ctx.seed) % len(kinds)]
+            if 'chained' in target[1] or 'beside' in target[1]:
+                # under a chained comparison, first the faults that ONLY the audit of the operands can see
+                first = [x for x in ('logit-keys', 'logit-choice', 'missing-column') if x in kinds]
+                order = first + [x for x in kinds if x not in first]
+                k = order[rnd % len(order)]
             cases.append(gen_fault_case(rng, k, target, rng.choice([2, 3, 4])))
     items, meta = [], []
     multi_cov = {}
@@ -787,21 +812,21 @@ def stream_histories(ctx):
     rng = ctx.sub_rng('histories')
     items, meta = [], []
     # ---- evaluation histories on fault cases
-    hkinds = ['missing-column', 'logit-keys', 'logit-choice']
+    hkinds = ['missing-column', 'logit-keys', 'logit-choice', 'draws-outside', 'rv-outside', 'var-outside-trajectory']
     hcases = []
     idx = ctx.seed
     for rnd in range(ctx.n(1, 6)):
         for target in FRAMES:
             if target[0] in ('Catalog',):
                 continue
-            kinds = [k for k in hkinds if target[2] in LEAF_TYPES[k]]
+            kinds = [k for k in hkinds if target[2] in LEAF_TYPES[k] and EXCLUDED_FRAME.get(k) != target[0]]
             if not kinds:
                 continue
             k = kinds[(rnd + FRAMES.index(target) + ctx.seed) % len(kinds)]
             c = None
             for _ in range(4):
                 c0 = gen_fault_case(rng, k, target, rng.choice([2, 3]))
-                if not c0['panel']:
+                if c0['panel'] == (c0['kind'] == 'var-outside-trajectory') and c0['kind'] == k:
                     c = c0
                     break
             if c is None:
@@ -811,7 +836,7 @@ def stream_histories(ctx):
             if h is None:
                 continue
             hcases.append(h)
-            items.append({'mode': 'evalhist', 'tree': h['tree'], 'betas': h['betas'], 'rows': h['rows'], 'panel': False,
+            items.append({'mode': 'evalhist', 'tree': h['tree'], 'betas': h['betas'], 'rows': h['rows'], 'panel': h['panel'],
                           'setup': h['setup'], 'script': h['script'], 'ndraws': 5})
             meta.append(('hist', h))
     # ---- draw types across formulas
@@ -896,7 +921,7 @@ def stream_histories(ctx):
                               'specification is valid at that moment and is refused', wit, 'a value', call)
             else:
                 if call.get('status') == 'accepted':
-                    ctx.violation(key, f'call {i + 1} of the history ({h["history"]}, same identifiers): the specification is faulty at '
+                    ctx.violation(key, f'call {i + 1} of the history ({h["history"]}, {h["setup"]}, same expression object): the specification is faulty at '
                                   f'that moment ({h["kind"]}) and a value is produced: {json.dumps(call.get("value"))[:80]}', wit,
                                   f'BiogemeError naming {h["mention"]}', call)
                 elif not call.get('biogeme'):
@@ -908,7 +933,10 @@ def stream_histories(ctx):
         for i, (exp_ok, (t, rows_i)) in enumerate(zip(h['expect'], views)):
             if not rows_i:
                 continue
-            checks.append(f'Bool.eqb (nonempty (eval_errors G {coq_db(rows_i, False)} {json_to_coq(t)} true true true)) '
+            pan = bool(h.get('panel'))
+            fn = 'spec_errors G' if h['setup'] in ('fresh-biogeme', 'from-configuration') else 'eval_errors G'
+            tail_ = '' if fn.startswith('spec') else ' true true true'
+            checks.append(f'Bool.eqb (nonempty ({fn} {coq_db(rows_i, pan)} {json_to_coq(t)}{tail_})) '
                           f'{"false" if exp_ok else "true"}')
             cmeta.append((sh, light, {'call': i + 1}))
     B = 120
